@@ -699,6 +699,19 @@ func runC10(r *rt.Run) {
 			}
 		}
 	}
+	// cells in the order of their west sides, ordinates in thirds / sevenths /
+	// tenths / thirteenths, the wide cell at every position
+	for _, n := range []int{16, 33} {
+		for _, den := range []int{3, 7, 10, 13} {
+			for wide := 0; wide < n; wide++ {
+				fjobs = append(fjobs, fjob{fmt.Sprintf("cells:%d:%d", den, wide), n, 1})
+				if den == 10 {
+					fjobs = append(fjobs, fjob{fmt.Sprintf("cells-descending:%d:%d", den, wide), n, 1})
+				}
+			}
+		}
+	}
+	r.Bounds["cell_families"] = "16 and 33 cells x denominators 3, 7, 10, 13 x every position of the wide cell (tenths also in descending order)"
 	r.ParFor(len(fjobs), func(i int, w *rt.Worker) {
 		j := fjobs[i]
 		c10Family(j.fam, j.n, j.kind, probes, w, func(class string, c rt.Case, exp, got string) {
@@ -757,6 +770,24 @@ func c10Family(fam string, n, kind int, probes []geojson.Object, w *rt.Worker, e
 				p := pt(i)
 				sq := geometry.NewPoly([]geometry.Point{p, gpt(p.X+0.125, p.Y), gpt(p.X+0.125, p.Y+0.125), p}, nil, nil)
 				o = geojson.NewFeature(geojson.NewMultiPolygon([]*geometry.Poly{geometry.NewPoly([]geometry.Point{p, p}, nil, nil), sq}), `{"id":1}`)
+			case strings.HasPrefix(fam, "cells"):
+				// cells with ordinates that are not dyadic (multiples of 1/den) in
+				// document order of their west side (or the reverse), two units
+				// wide, the one at position `wide` seven units: lower-left corner +
+				// width does not always reproduce the east side bit for bit
+				var den, wide int
+				desc := strings.HasPrefix(fam, "cells-descending")
+				fmt.Sscanf(fam[strings.Index(fam, ":")+1:], "%d:%d", &den, &wide)
+				k := i
+				if desc {
+					k = n - 1 - i
+				}
+				x0, wd := float64(k)/float64(den), 2.0
+				if k == wide {
+					wd = 7
+				}
+				x1, y0 := (float64(k)+wd)/float64(den), float64(k)
+				o = geojson.NewPolygon(geometry.NewPoly([]geometry.Point{gpt(x0, y0), gpt(x1, y0), gpt(x1, y0+0.5), gpt(x0, y0+0.5), gpt(x0, y0)}, nil, nil))
 			case i%3 == 1:
 				o = geojson.NewLineString(geometry.NewLine([]geometry.Point{pt(i), pt(i + 1)}, nil))
 			default:
@@ -766,6 +797,21 @@ func c10Family(fam string, n, kind int, probes []geojson.Object, w *rt.Worker, e
 			js = append(js, o.JSON())
 		}
 		coll = geojson.NewGeometryCollection(ch)
+	}
+	queries := c10Queries
+	if strings.HasPrefix(fam, "cells") {
+		// probes and query rectangles on the cells' own corners, sides and middles
+		probes, queries = nil, nil
+		for _, c := range coll.(geojson.Collection).Children() {
+			rc := c.Rect()
+			mx, my := (rc.Min.X+rc.Max.X)/2, (rc.Min.Y+rc.Max.Y)/2
+			for _, q := range []geometry.Point{rc.Min, rc.Max, gpt(rc.Min.X, rc.Max.Y), gpt(rc.Max.X, rc.Min.Y), gpt(rc.Max.X, my), gpt(rc.Min.X, my), gpt(mx, my)} {
+				probes = append(probes, geojson.NewPoint(q))
+				queries = append(queries, geometry.Rect{Min: q, Max: q})
+			}
+			queries = append(queries, rc, geometry.Rect{Min: gpt(rc.Max.X, rc.Min.Y), Max: gpt(rc.Max.X+1, rc.Max.Y)}, geometry.Rect{Min: gpt(rc.Min.X-1, rc.Min.Y), Max: gpt(rc.Min.X, rc.Max.Y)})
+			probes = append(probes, geojson.NewRect(geometry.Rect{Min: gpt(rc.Max.X, rc.Min.Y), Max: gpt(rc.Max.X+1, rc.Max.Y)}))
+		}
 	}
 	mk := func(cfg string) rt.Case {
 		return rt.Case{Kind: "collection", Op: "family", Cfg: cfg, X: map[string]string{"family": fam, "n": fmt.Sprint(n), "kind": fmt.Sprint(kind)}}
@@ -782,7 +828,7 @@ func c10Family(fam string, n, kind int, probes []geojson.Object, w *rt.Worker, e
 	if idx := coll.(geojson.Collection).Indexed(); idx != (nonEmpty >= 64) {
 		emit("indexed-family", mk("constructor"), fmt.Sprintf("indexed=%v", nonEmpty >= 64), fmt.Sprint(idx))
 	}
-	for _, f := range c10Check(coll, js, probes, c10Queries, w) {
+	for _, f := range c10Check(coll, js, probes, queries, w) {
 		emit("compose-family-"+f[0], mk("constructor"), f[1], f[2])
 	}
 	if !parseable {
@@ -799,7 +845,7 @@ func c10Family(fam string, n, kind int, probes []geojson.Object, w *rt.Worker, e
 		if idx := o.(geojson.Collection).Indexed(); idx != (t != 0 && nonEmpty >= t) {
 			emit("indexed-family", mk(fmt.Sprintf("parse/idx%d", t)), fmt.Sprintf("indexed=%v", t != 0 && nonEmpty >= t), fmt.Sprint(idx))
 		}
-		for _, f := range c10Check(o, js, probes, c10Queries, w) {
+		for _, f := range c10Check(o, js, probes, queries, w) {
 			emit("compose-family-"+f[0], mk(fmt.Sprintf("parse/idx%d", t)), f[1], f[2])
 		}
 	}
